@@ -72,7 +72,7 @@ fn main() {
             let k = rng.below(universe) as u8;
             let v = rng.below(1000) as u16;
             calls += 1;
-            match rng.below(22) {
+            match rng.below(25) {
                 0 | 1 | 2 => {
                     assert_eq!(r.insert(k, v), m.insert(k, v), "insert");
                     same(&r, &m, "insert", step);
@@ -198,6 +198,46 @@ fn main() {
                     let a: Vec<(u8, u16)> = (&r).into_iter().map(|(k, v)| (*k, *v)).collect();
                     let b: Vec<(u8, u16)> = (&m).into_iter().map(|(k, v)| (*k, *v)).collect();
                     assert_eq!(a, b, "&map into_iter");
+                }
+                20 | 21 => {
+                    // raw-entry API, used as its contract demands (the map's own hash)
+                    use model::map::raw_entry_v1::{RawEntryApiV1 as MA, RawEntryMut as MR};
+                    use real::map::raw_entry_v1::{RawEntryApiV1 as RA, RawEntryMut as RR};
+                    let h = mode.hash_one(&k);
+                    let a = RA::raw_entry_v1(&r).from_key_hashed_nocheck(h, &k).map(|(k, v)| (*k, *v));
+                    let b = MA::raw_entry_v1(&m).from_key_hashed_nocheck(h, &k).map(|(k, v)| (*k, *v));
+                    assert_eq!(a, b, "raw from_key_hashed_nocheck");
+                    let a = RA::raw_entry_v1(&r).from_key(&k).map(|(k, v)| (*k, *v));
+                    let b = MA::raw_entry_v1(&m).from_key(&k).map(|(k, v)| (*k, *v));
+                    assert_eq!(a, b, "raw from_key");
+                    let a = RA::raw_entry_v1(&r).index_from_hash(h, |x| *x == k);
+                    let b = MA::raw_entry_v1(&m).index_from_hash(h, |x| *x == k);
+                    assert_eq!(a, b, "raw index_from_hash");
+                    let a = match RA::raw_entry_mut_v1(&mut r).from_key_hashed_nocheck(h, &k) {
+                        RR::Occupied(mut e) => { let o = e.insert(v); (true, e.index(), o) }
+                        RR::Vacant(e) => { let i = e.index(); e.insert_hashed_nocheck(h, k, v); (false, i, 0) }
+                    };
+                    let b = match MA::raw_entry_mut_v1(&mut m).from_key_hashed_nocheck(h, &k) {
+                        MR::Occupied(mut e) => { let o = e.insert(v); (true, e.index(), o) }
+                        MR::Vacant(e) => { let i = e.index(); e.insert_hashed_nocheck(h, k, v); (false, i, 0) }
+                    };
+                    assert_eq!(a, b, "raw entry mut");
+                    same(&r, &m, "raw entry mut", step);
+                    assert_eq!(r.get_full(&k), m.get_full(&k), "lookup after raw insert");
+                }
+                22 => {
+                    use model::map::raw_entry_v1::{RawEntryApiV1 as MA, RawEntryMut as MR};
+                    use real::map::raw_entry_v1::{RawEntryApiV1 as RA, RawEntryMut as RR};
+                    let a = match RA::raw_entry_mut_v1(&mut r).from_key(&k) {
+                        RR::Occupied(e) => Some(e.swap_remove_entry()),
+                        RR::Vacant(e) => { e.insert(k, v); None }
+                    };
+                    let b = match MA::raw_entry_mut_v1(&mut m).from_key(&k) {
+                        MR::Occupied(e) => Some(e.swap_remove_entry()),
+                        MR::Vacant(e) => { e.insert(k, v); None }
+                    };
+                    assert_eq!(a, b, "raw from_key swap_remove/insert");
+                    same(&r, &m, "raw from_key swap_remove/insert", step);
                 }
                 _ => {
                     assert_eq!(r.get_index_of(&k), m.get_index_of(&k), "get_index_of");
